@@ -119,6 +119,9 @@ def parse_dimacs(infile):
                     "There is a another spec at line {}".format(line_counter))
             try:
                 _, _, nstr, mstr = line.split()
+                if not (nstr.isascii() and nstr.isdigit()
+                        and mstr.isascii() and mstr.isdigit()):
+                    raise ValueError
                 n = int(nstr)
                 m = int(mstr)
                 if n < 0 or m < 0:
